@@ -495,6 +495,7 @@ pub fn run(id: &str) -> Option<bool> {
         "c14" => crate::actor::verif_incrate::witness_c14(),
         "c11live" => crate::engine::verif_live::witness_c11live(),
         "c09frame" => crate::net::verif_codec::witness_c09frame(),
+        "c10steps" => crate::net::verif_codec::witness_c10steps(),
         "c18" => crate::store::fs::verif_incrate::witness_c18::run(),
         "c06" => crate::store::fs::verif_incrate::witness_c06::run(),
         "c15store" => crate::store::fs::verif_incrate::witness_c15::run(),
